@@ -467,7 +467,7 @@ def check(run, replay_path=None):
     run.note('text_cases', {'stores': n_store, 'filters_per_store': n_filter, 'service_calls': tcalls})
     t = next(t for t in ttraces if t[0]['p']['lg'] == 'ragref')
     i = next(i for i, r in enumerate(t) if r['kind'] == 'text' and r['f']['width'] == ['m'] and r['f']['lang'] == []
-             and r['f']['ref'] == [] and r['f']['ver'] == [1] and r['f']['lines'] == [])
+             and r['f']['ref'] == [] and r['f']['ver'] == [0] and r['f']['lines'] == [])
     run.sample({'store': t[0]['texts'], 'languages': t[0]['langs']['resp'], 'filter': t[i]['f'],
                 'GetLocalizedText': t[i]['a']['resp']})
 
